@@ -545,4 +545,30 @@ Proof.
   rewrite (terminate_taken _ _ _ ET), T' in F. transitivity (frame (terminate est')); [symmetry; exact F|].
   unfold encode_ref. now rewrite (rep_terminate mi ms est' _ Rp').
 Qed.
+
+(* C09 at memory level: at every point of every history, what the consumer's Reads returned so far followed by the bytes of
+   the slices it may look at now (stable_prefix) is a prefix of the final encoding, whatever input is still to come *)
+Theorem genc_prefix ops e h g ge' h' g' out st :
+  Forall simple ops ->
+  ge_new [] empty_iov mi = Some (e, h, g) ->
+  ge_run ms e h g ops = Some (ge', h', g', out) ->
+  stable_slices g' = Some st ->
+  forall z, exists t, encode_ref mi ms (concat (gpieces ops) ++ z) = (out ++ concat (map (sl_bytes h') st)) ++ t.
+Proof.
+  intros Hs E0 E1 ES z.
+  pose proof (sim_new (fun x => x) s_empty [] empty_iov mi e h g (GS_empty _) E0) as N0.
+  pose proof (init_sim mi ms) as S0. destruct (enc_new s_empty mi) as [e0 s0] eqn:EN.
+  destruct N0 as (m0 & G0 & R0).
+  assert (T0 : taken s0 = []) by (unfold enc_new in EN; cbn in EN; inversion EN; reflexivity).
+  destruct (sim_run ops m0 e0 e s0 h g (init mi) [] ge' h' g' out Hs G0 R0 S0 (rep_init mi ms ltac:(lia)) E1)
+    as (m' & e2' & s' & est' & G' & R' & (SW & _) & Rp' & T').
+  cbn [app] in Rp'. rewrite T0 in T'. cbn [app] in T'.
+  destruct (stable_sim mi ms Hmi Hms e2' s' est' _ SW) as (pre & F & St & _).
+  destruct G' as (I & p & SRf & Rf & PI).
+  pose proof (R_stable_bytes h' g' p st Rf ES) as HB.
+  destruct (PipeProofs4.stable_before_first_hole p PI) as (t1 & Ht1).
+  pose proof (sr_cells _ _ _ SRf) as HC. rewrite <- HC, stable_ren, St in Ht1.
+  destruct (frame_app_prefix (closed est') (stuffN (limit est') ms (open_of est' ++ z))) as (t2 & Ht2).
+  exists (t1 ++ t2). unfold encode_ref. rewrite (r_online mi ms est' _ Rp' z), Ht2, F, T', Ht1, HB, <- !app_assoc. reflexivity.
+Qed.
 End Hist.
